@@ -40,6 +40,7 @@ type run struct {
 	probe   int // C11 (when probeOn): percent of the PREPARE / COMMIT messages a correct node sends (NEW_VIEW and VIEW_CHANGE: all) that are
 	// delivered AT ONCE to replayed copies of their correct recipients
 	probes, probeMismatch int
+	beyond bool // a correct node's own view or height has left the range the abstraction keeps apart (>= 10^6): the run ends
 }
 
 func (r *run) honest() []*cnode {
@@ -127,7 +128,14 @@ func (r *run) record(n *cnode, ev string, msg obj, extra obj) {
 	if proposedBy == nil {
 		proposedBy = []string{}
 	}
-	line := obj{"proposed": proposed, "proposedby": proposedBy, "ev": ev, "n": idName(n.idx), "msg": msg, "post": n.nodeState(), "sent": sent, "stores": stores, "vals": vals,
+	// the ordered committee the node's term works with right now (the leader of a view is a position in it)
+	tcom := []string{}
+	if term := n.worker.VerifTerm(); term != nil && term.VerifTermInCommittee() != nil {
+		for _, m := range term.VerifTermInCommittee().VerifCommittee() {
+			tcom = append(tcom, cl.nameOf(m.Id))
+		}
+	}
+	line := obj{"tcom": tcom, "proposed": proposed, "proposedby": proposedBy, "ev": ev, "n": idName(n.idx), "msg": msg, "post": n.nodeState(), "sent": sent, "stores": stores, "vals": vals,
 		"commits": commits, "rounds": rounds, "props": n.proposals, "panic": n.panicked != ""}
 	for k, v := range extra {
 		line[k] = v
@@ -140,6 +148,12 @@ func (r *run) record(n *cnode, ev string, msg obj, extra obj) {
 	}
 	if r.probeOn && !n.isReplica {
 		r.probeSends(n, n.sends)
+	}
+	// views and heights above 10^6 are class representatives in the traces: two different views of one class look the same.  That is
+	// fine for a message a node judges (C12, C18), not for the node's OWN position: once it is up there (elected by extreme-view votes
+	// in a lone-node run, say) later steps could not be told apart - first seen as a bogus "VIEW_CHANGE views not increasing"
+	if uint64(n.st.View()) >= 1000000 || uint64(n.st.Height()) >= 1000000 {
+		r.beyond = true
 	}
 }
 
@@ -258,7 +272,7 @@ func randomPolicy(rnd *rand.Rand) policy {
 func (r *run) loop(maxSteps int, pol policy) {
 	total := pol.deliver + pol.dup + pol.drop + pol.timeout + pol.byz + pol.mutate + pol.garbage + pol.sync
 	hon := r.honest()
-	for r.steps = 0; r.steps < maxSteps && !r.allDone(); r.steps++ {
+	for r.steps = 0; r.steps < maxSteps && !r.allDone() && !r.beyond; r.steps++ {
 		x := r.rnd.Intn(total)
 		switch {
 		case x < pol.deliver:
